@@ -205,3 +205,76 @@ def lint_view_signature(ck, R, m, tree_views):
                    ': the members of one family differ in what they contain (which atoms are keys, whether order-8 bonds count, stereogenic vs actually chiral), '
                    'so the function now decides on another set', file=m.relpath, func=q, construct=', '.join(lost))
     return n
+
+
+# H14 ---------------------------------------------------------------------------------------------------------------------------------------
+_SPLIT = __import__('re').compile(r'[_\W]+')
+
+
+def _tokens(e):
+    out = set()
+    for n in ast.walk(e):
+        if isinstance(n, ast.Name):
+            out |= {t for t in _SPLIT.split(n.id.lower()) if t}
+        elif isinstance(n, ast.Attribute):
+            out |= {t for t in _SPLIT.split(n.attr.lower()) if t}
+    return out
+
+
+def _provenance_tokens(e, fn, depth=2):
+    """names the value of an expression is computed from, followed through every assignment of its variables (tuple unpacking included)"""
+    out = _tokens(e)
+    names = {n.id for n in ast.walk(e) if isinstance(n, ast.Name)}
+    for _ in range(depth):
+        new = set()
+        for st in ast.walk(fn):
+            if isinstance(st, ast.Assign) and any(isinstance(t, ast.Name) and t.id in names for tg in st.targets for t in ast.walk(tg)):
+                out |= _tokens(st.value)
+                new |= {n.id for n in ast.walk(st.value) if isinstance(n, ast.Name)}
+        names = new - names
+        if not names:
+            break
+    return out
+
+
+def lint_argument_parameter_affinity(ck, R, repo, m, qual, fn):
+    """a positional argument that lands on an OPTIONAL parameter although everything it is computed from is named after ANOTHER optional parameter of the
+    same callee (QueryBond(order, s1 == s2) with s1, s2 popped from stereo_bonds: bound to in_ring, the callee also has stereo). Callees are resolved
+    through the module's own names and imports; only parameters with defaults are considered, and the argument must not mention the parameter it is bound to."""
+    from .model import ClassInfo, FuncInfo
+    from .astutil import expand_locals
+    n = 0
+    for c in ast.walk(fn):
+        if not (isinstance(c, ast.Call) and isinstance(c.func, ast.Name) and len(c.args) >= 2):
+            continue
+        r = repo.resolve(m, c.func.id)
+        if isinstance(r, ClassInfo):
+            r = repo.lookup(r, '__init__')
+            skip = 1
+        elif isinstance(r, FuncInfo):
+            skip = 0
+        else:
+            continue
+        if r is None or any(isinstance(a, ast.Starred) for a in c.args):
+            continue
+        a = r.node.args
+        pos = (a.posonlyargs + a.args)[skip:]
+        nd = len(a.defaults)
+        optional = [p.arg for p in pos[len(pos) - nd:]] if nd else []
+        optional_all = set(optional) | {p.arg for p, d in zip(a.kwonlyargs, a.kw_defaults) if d is not None}
+        if len(optional_all) < 2:
+            continue
+        for i, arg in enumerate(c.args):
+            if i >= len(pos) or pos[i].arg not in optional:
+                continue
+            n += 1
+            bound = pos[i].arg
+            toks = _tokens(expand_locals(arg, fn, depth=4)) | _provenance_tokens(arg, fn)
+            if not toks or bound.lower() in toks or set(_SPLIT.split(bound.lower())) & toks:
+                continue
+            others = sorted(o for o in optional_all if o != bound and o.lower() in toks)
+            if others:
+                ck.bad(R, f'affinity:{m.name}:{qual}:{c.func.id}:{bound}', f'{qual}: `{src(c)[:90]}` passes `{src(arg)[:50]}` positionally, which binds it to the parameter `{bound}` of '
+                       f'{c.func.id}; the value is computed from {sorted(toks & {o.lower() for o in others})}-named data and the callee has the parameter `{others[0]}`: '
+                       f'the argument lands in the wrong slot', file=m.relpath, line=c.lineno, func=qual, construct=src(c)[:100])
+    return n
